@@ -37,7 +37,7 @@ def FUNCTIONS():
   return list(_ORIG)
 
 
-BOUNDS = {'kill semantics': 'one killable thread (body of 0..2 steps, may swallow the first ThreadTerminationError or raise its own exception) + one killer; kill before start / at a symbolic step; K <= 2 preemptions',
+BOUNDS = {'kill semantics': 'one killable thread (body of 0..2 steps, may swallow the first ThreadTerminationError or raise its own exception) + one killer; kill before start (one preemption at any of 25 steps) / killer delayed by 0 or 2 steps with K <= 2 preemptions at any of 25 steps to any of the three threads',
           'join_or_die': 'body duration d in 0..8 or infinite, finish-handler duration f in 0..2, timeout_s in 1..4 (virtual seconds, _JOIN_TRY_INTERVAL_SECONDS from the live module), K <= 1 preemption'}
 STUBS = ['cooperative Lock/Event/Thread and virtual time (vlib/seqz/prims.py)',
          'async_raise: marks the exception pending; it is thrown into the target coroutine at its next step if it is still alive (CPython delivers at the next bytecode boundary: statement granularity is the coarsening)',
